@@ -21,8 +21,9 @@
 
    Time: `now` in ticks; a timed wait of d ticks gets the deadline now + d + 1 (never early, one tick
    late); Tick is enabled only when nothing else is (maximal progress) and jumps to the earliest
-   pending deadline.  Event semantics are CPython's (set() wakes the current waiter even if a
-   clear() follows before it runs): `woken`.
+   pending deadline.  Event semantics are CPython's, two-phase: wait() first looks at the flag
+   (l_wait: not yet a waiter); only if it is clear does the thread register and block (l_blocked);
+   set() wakes a registered waiter even if a clear() follows before it runs (`woken`).
 
    Ghost state: obs/viol are the contract TimeoutObs fed with the events the actions generate;
    TLC checks  viol = "ok"  on every reachable state, i.e. every clause of C09 on every interleaving.
@@ -46,11 +47,11 @@ Env(j) == <<"env", j>>
 Threads == {LOOP, OBS} \cup {Sub(j) : j \in Jobs} \cup {Env(j) : j \in Jobs}
 
 VARIABLES cfgT, cfgS, cfgD, cfgC,
-          pc, jobs, dl, lock, gate, evt, woken, jst, overdue, lpend, wdl, edl, now,
+          pc, jobs, dl, lock, gate, evt, woken, jst, overdue, lpend, wt, wdl, edl, now,
           obs, viol, hist, actor
 
 cfg  == <<cfgT, cfgS, cfgD, cfgC>>
-vars == <<cfgT, cfgS, cfgD, cfgC, pc, jobs, dl, lock, gate, evt, woken, jst, overdue, lpend, wdl, edl, now,
+vars == <<cfgT, cfgS, cfgD, cfgC, pc, jobs, dl, lock, gate, evt, woken, jst, overdue, lpend, wt, wdl, edl, now,
           obs, viol, hist, actor>>
 
 RECURSIVE Feed(_, _, _)
@@ -70,11 +71,11 @@ Init ==
   /\ pc = [t \in Threads |-> IF t = LOOP THEN "l_top" ELSE IF t = OBS THEN "o_sleep"
                               ELSE IF t[1] = "sub" THEN "s_sleep" ELSE "e_idle"]
   /\ jobs = <<>> /\ dl = [j \in Jobs |-> 0] /\ lock = "none" /\ gate = NoOne /\ evt = FALSE /\ woken = FALSE
-  /\ jst = [j \in Jobs |-> "new"] /\ overdue = <<>> /\ lpend = <<>> /\ wdl = -1
+  /\ jst = [j \in Jobs |-> "new"] /\ overdue = <<>> /\ lpend = <<>> /\ wt = -1 /\ wdl = -1
   /\ edl = [j \in Jobs |-> -1] /\ now = 0
   /\ obs = ObsInit /\ viol = "ok" /\ hist = <<>> /\ actor = <<"-", 0>>
 
-LoopWaiting == pc[LOOP] = "l_wait"
+LoopWaiting == pc[LOOP] = "l_blocked"
 SetEvent == evt' = TRUE /\ woken' = (woken \/ LoopWaiting)
 
 \* ------------------------------------------------------------------ submit_timeout()
@@ -84,7 +85,7 @@ SSleep(j) ==   \* the client wakes up and calls submit_timeout(); next visible o
   /\ pc' = [pc EXCEPT ![Sub(j)] = "s_gate"]
   /\ Emit(<<E2("SubmitCall", "client", now, j, cfgT[j])>>)
   /\ actor' = Sub(j)
-  /\ UNCHANGED <<cfg, jobs, dl, lock, gate, evt, woken, jst, overdue, lpend, wdl, edl, now>>
+  /\ UNCHANGED <<cfg, jobs, dl, lock, gate, evt, woken, jst, overdue, lpend, wt, wdl, edl, now>>
 
 G_SGate(j) == pc[Sub(j)] = "s_gate" /\ gate = NoOne
 SGate(j) ==    \* with ensure_alive(): delegate.submit, MapFuture, add_done_callback, deadline = monotonic() + timeout
@@ -95,7 +96,7 @@ SGate(j) ==    \* with ensure_alive(): delegate.submit, MapFuture, add_done_call
   /\ edl' = [edl EXCEPT ![j] = IF cfgD[j] > 0 THEN now + cfgD[j] ELSE -1]
   /\ pc' = [pc EXCEPT ![Sub(j)] = "s_lock", ![Env(j)] = IF cfgD[j] > 0 THEN "e_sleep" ELSE "e_never"]
   /\ actor' = Sub(j)
-  /\ UNCHANGED <<cfg, jobs, lock, evt, woken, overdue, lpend, wdl, now, obs, viol, hist>>
+  /\ UNCHANGED <<cfg, jobs, lock, evt, woken, overdue, lpend, wt, wdl, now, obs, viol, hist>>
 
 G_SLock(j) == pc[Sub(j)] = "s_lock" /\ lock = "none"
 SLock(j) ==    \* with self._jobs_lock: self._jobs.append(job)
@@ -103,7 +104,7 @@ SLock(j) ==    \* with self._jobs_lock: self._jobs.append(job)
   /\ jobs' = Append(jobs, j)
   /\ pc' = [pc EXCEPT ![Sub(j)] = "s_set"]
   /\ actor' = Sub(j)
-  /\ UNCHANGED <<cfg, dl, lock, gate, evt, woken, jst, overdue, lpend, wdl, edl, now, obs, viol, hist>>
+  /\ UNCHANGED <<cfg, dl, lock, gate, evt, woken, jst, overdue, lpend, wt, wdl, edl, now, obs, viol, hist>>
 
 G_SSet(j) == pc[Sub(j)] = "s_set"
 SSet(j) ==     \* self._jobs_write.set(); return future
@@ -113,7 +114,7 @@ SSet(j) ==     \* self._jobs_write.set(); return future
   /\ gate' = NoOne
   /\ Emit(<<E1("SubmitRet", "client", now, j)>>)
   /\ actor' = Sub(j)
-  /\ UNCHANGED <<cfg, jobs, dl, lock, jst, overdue, lpend, wdl, edl, now>>
+  /\ UNCHANGED <<cfg, jobs, dl, lock, jst, overdue, lpend, wt, wdl, edl, now>>
 
 \* ------------------------------------------------------------------ the job loop
 IsOverdue(j) == IF Bug = "early" THEN dl[j] <= now + 1 ELSE dl[j] < now
@@ -124,11 +125,11 @@ FirstCancellable(ov, i) ==
   IF i > Len(ov) THEN 0
   ELSE IF jst[ov[i]] = "pending" /\ cfgC[ov[i]] THEN i ELSE FirstCancellable(ov, i + 1)
 
-WaitDeadline(pend) ==
+WaitTime(pend) ==      \* wait_time = max(earliest - monotonic(), 0), or None (-1)
   IF pend = <<>> THEN -1
   ELSE LET earliest == CHOOSE d \in {dl[pend[i]] : i \in DOMAIN pend} :
                           \A x \in {dl[pend[i]] : i \in DOMAIN pend} : d <= x
-       IN now + Max(earliest - now, 0) + 1
+       IN Max(earliest - now, 0)
 
 \* run _do_cancel over `ov` until one cancel succeeds (next visible op: the event.set() of its
 \* done-callback) or the list is exhausted (next visible op: event.wait)
@@ -138,14 +139,14 @@ ProcessOverdue(ov, pend) ==
       attempts == [x \in 1..n |-> ES("CancelArrived", "timeout", now, ov[x], "outer")]
   IN IF i = 0
        THEN /\ overdue' = <<>> /\ lpend' = pend
-            /\ wdl' = WaitDeadline(pend)
+            /\ wt' = WaitTime(pend)
             /\ pc' = [pc EXCEPT ![LOOP] = "l_wait"]
             /\ UNCHANGED jst
             /\ Emit(attempts)
        ELSE /\ overdue' = SubSeq(ov, i + 1, Len(ov)) /\ lpend' = pend
             /\ jst' = [jst EXCEPT ![ov[i]] = "cancelled"]
             /\ pc' = [pc EXCEPT ![LOOP] = "l_cset"]
-            /\ UNCHANGED wdl
+            /\ UNCHANGED wt
             /\ Emit(attempts \o <<ESA("Observed", "timeout", now, ov[i], "CANCELLED_AND_NOTIFIED", -1, -1)>>)
 
 G_LTop == pc[LOOP] = "l_top" /\ lock = "none"
@@ -157,7 +158,7 @@ LTop ==        \* with _jobs_lock: partition; then cancel overdue jobs
      IN /\ jobs' = (IF Bug = "drop_pending" /\ ov # <<>> THEN <<>> ELSE pend)
         /\ ProcessOverdue(ov, IF Bug = "drop_pending" /\ ov # <<>> THEN <<>> ELSE pend)
   /\ actor' = LOOP
-  /\ UNCHANGED <<cfg, dl, lock, gate, evt, woken, edl, now>>
+  /\ UNCHANGED <<cfg, dl, lock, gate, evt, woken, wdl, edl, now>>
 
 G_LCSet == pc[LOOP] = "l_cset"
 LCSet ==       \* the cancelled future's done-callback: self._jobs_write.set(); continue cancelling
@@ -165,15 +166,24 @@ LCSet ==       \* the cancelled future's done-callback: self._jobs_write.set(); 
   /\ evt' = TRUE /\ UNCHANGED woken
   /\ ProcessOverdue(overdue, lpend)
   /\ actor' = LOOP
-  /\ UNCHANGED <<cfg, jobs, dl, lock, gate, edl, now>>
+  /\ UNCHANGED <<cfg, jobs, dl, lock, gate, wdl, edl, now>>
 
-G_LWake == pc[LOOP] = "l_wait" /\ (evt \/ woken \/ (wdl >= 0 /\ now >= wdl))
-LWake ==       \* event.wait(wait_time) returns
+G_LEnter == pc[LOOP] = "l_wait"
+LEnter ==      \* event.wait(wait_time): look at the flag; block only if it is clear
+  /\ G_LEnter
+  /\ IF evt THEN /\ pc' = [pc EXCEPT ![LOOP] = "l_clear"] /\ UNCHANGED wdl
+            ELSE /\ pc' = [pc EXCEPT ![LOOP] = "l_blocked"]
+                 /\ wdl' = IF wt >= 0 THEN now + wt + 1 ELSE -1
+  /\ actor' = LOOP
+  /\ UNCHANGED <<cfg, jobs, dl, lock, gate, evt, woken, jst, overdue, lpend, wt, edl, now, obs, viol, hist>>
+
+G_LWake == pc[LOOP] = "l_blocked" /\ (woken \/ (wdl >= 0 /\ now >= wdl))
+LWake ==       \* the blocked wait returns (notified by set(), or timed out)
   /\ G_LWake
   /\ woken' = FALSE
   /\ pc' = [pc EXCEPT ![LOOP] = "l_clear"]
   /\ actor' = LOOP
-  /\ UNCHANGED <<cfg, jobs, dl, lock, gate, evt, jst, overdue, lpend, wdl, edl, now, obs, viol, hist>>
+  /\ UNCHANGED <<cfg, jobs, dl, lock, gate, evt, jst, overdue, lpend, wt, wdl, edl, now, obs, viol, hist>>
 
 G_LClear == pc[LOOP] = "l_clear"
 LClear ==      \* event.clear()
@@ -181,7 +191,7 @@ LClear ==      \* event.clear()
   /\ evt' = FALSE
   /\ pc' = [pc EXCEPT ![LOOP] = "l_top"]
   /\ actor' = LOOP
-  /\ UNCHANGED <<cfg, jobs, dl, lock, gate, woken, jst, overdue, lpend, wdl, edl, now, obs, viol, hist>>
+  /\ UNCHANGED <<cfg, jobs, dl, lock, gate, woken, jst, overdue, lpend, wt, wdl, edl, now, obs, viol, hist>>
 
 \* ------------------------------------------------------------------ the delegate's work
 G_EFinish(j) == pc[Env(j)] = "e_sleep" /\ now >= edl[j]
@@ -194,7 +204,7 @@ EFinish(j) ==  \* work ends: delegate future resolved, outer future resolved by 
        ELSE /\ pc' = [pc EXCEPT ![Env(j)] = "done"]
             /\ UNCHANGED <<jst, obs, viol, hist>>
   /\ actor' = Env(j)
-  /\ UNCHANGED <<cfg, jobs, dl, lock, gate, evt, woken, overdue, lpend, wdl, edl, now>>
+  /\ UNCHANGED <<cfg, jobs, dl, lock, gate, evt, woken, overdue, lpend, wt, wdl, edl, now>>
 
 G_ESet(j) == pc[Env(j)] = "e_set"
 ESet(j) ==     \* _on_future_done: self._jobs_write.set()
@@ -202,7 +212,7 @@ ESet(j) ==     \* _on_future_done: self._jobs_write.set()
   /\ SetEvent
   /\ pc' = [pc EXCEPT ![Env(j)] = "done"]
   /\ actor' = Env(j)
-  /\ UNCHANGED <<cfg, jobs, dl, lock, gate, jst, overdue, lpend, wdl, edl, now, obs, viol, hist>>
+  /\ UNCHANGED <<cfg, jobs, dl, lock, gate, jst, overdue, lpend, wt, wdl, edl, now, obs, viol, hist>>
 
 \* ------------------------------------------------------------------ observer
 G_OEnd == pc[OBS] = "o_sleep" /\ now >= Horizon
@@ -211,28 +221,28 @@ OEnd ==
   /\ pc' = [pc EXCEPT ![OBS] = "done"]
   /\ Emit(<<E0("End", "main", now)>>)
   /\ actor' = OBS
-  /\ UNCHANGED <<cfg, jobs, dl, lock, gate, evt, woken, jst, overdue, lpend, wdl, edl, now>>
+  /\ UNCHANGED <<cfg, jobs, dl, lock, gate, evt, woken, jst, overdue, lpend, wt, wdl, edl, now>>
 
 \* ------------------------------------------------------------------ time
 AnyEnabled ==
   \/ \E j \in Jobs : G_SSleep(j) \/ G_SGate(j) \/ G_SLock(j) \/ G_SSet(j) \/ G_EFinish(j) \/ G_ESet(j)
-  \/ G_LTop \/ G_LCSet \/ G_LWake \/ G_LClear \/ G_OEnd
+  \/ G_LTop \/ G_LCSet \/ G_LEnter \/ G_LWake \/ G_LClear \/ G_OEnd
 
 Deadlines ==
   {cfgS[j] : j \in {x \in Jobs : pc[Sub(x)] = "s_sleep"}}
   \cup {edl[j] : j \in {x \in Jobs : pc[Env(x)] = "e_sleep"}}
-  \cup (IF pc[LOOP] = "l_wait" /\ wdl >= 0 THEN {wdl} ELSE {})
+  \cup (IF pc[LOOP] = "l_blocked" /\ wdl >= 0 THEN {wdl} ELSE {})
   \cup (IF pc[OBS] = "o_sleep" THEN {Horizon} ELSE {})
 
 Tick ==
   /\ ~AnyEnabled /\ Deadlines # {}
   /\ now' = CHOOSE d \in Deadlines : \A x \in Deadlines : d <= x
   /\ actor' = <<"tick", 0>>
-  /\ UNCHANGED <<cfg, pc, jobs, dl, lock, gate, evt, woken, jst, overdue, lpend, wdl, edl, obs, viol, hist>>
+  /\ UNCHANGED <<cfg, pc, jobs, dl, lock, gate, evt, woken, jst, overdue, lpend, wt, wdl, edl, obs, viol, hist>>
 
 Next ==
   \/ \E j \in Jobs : SSleep(j) \/ SGate(j) \/ SLock(j) \/ SSet(j) \/ EFinish(j) \/ ESet(j)
-  \/ LTop \/ LCSet \/ LWake \/ LClear \/ OEnd \/ Tick
+  \/ LTop \/ LCSet \/ LEnter \/ LWake \/ LClear \/ OEnd \/ Tick
 
 Spec == Init /\ [][Next]_vars
 
@@ -241,11 +251,11 @@ ContractHolds == viol = "ok"                       \* every clause of TimeoutObs
 TypeOK == /\ lock = "none" /\ now \in Nat /\ \A j \in Jobs : jst[j] \in {"new", "pending", "done", "cancelled"}
 \* lost wake-up (C03): the loop sleeps without a timer although a pending job is in the list
 NoTimerlessSleepWithWork ==
-  ~(pc[LOOP] = "l_wait" /\ wdl = -1 /\ ~evt /\ ~woken /\ ~AnyEnabled
+  ~(pc[LOOP] = "l_blocked" /\ wdl = -1 /\ ~woken /\ ~AnyEnabled
       /\ \E i \in DOMAIN jobs : jst[jobs[i]] = "pending")
 \* a job the executor accepted stays in the list (or is being handled) until it is done or attempted
 NoJobLost ==
   \A j \in Jobs : (jst[j] = "pending" /\ pc[Sub(j)] = "done" /\ Get(obs.att, j, 0) = 0) =>
       (\E i \in DOMAIN jobs : jobs[i] = j) \/ (\E i \in DOMAIN overdue : overdue[i] = j)
-View == <<cfg, pc, jobs, dl, lock, gate, evt, woken, jst, overdue, lpend, wdl, edl, now, obs, viol>>
+View == <<cfg, pc, jobs, dl, lock, gate, evt, woken, jst, overdue, lpend, wt, wdl, edl, now, obs, viol>>
 =============================================================================
